@@ -24,6 +24,12 @@ var solvers = []solverSpec{
 	{"z3", func(f string, ms, seed int) []string {
 		return []string{"/usr/bin/z3", fmt.Sprintf("-T:%d", (ms+999)/1000), fmt.Sprintf("smt.random_seed=%d", seed), f}
 	}},
+	{"z3-new-mbqi", func(f string, ms, seed int) []string {
+		return []string{"z3-new", fmt.Sprintf("-T:%d", (ms+999)/1000), "smt.ematching=false", fmt.Sprintf("smt.random_seed=%d", seed), f}
+	}},
+	{"z3-new-euf", func(f string, ms, seed int) []string {
+		return []string{"z3-new", fmt.Sprintf("-T:%d", (ms+999)/1000), "sat.euf=true", fmt.Sprintf("smt.random_seed=%d", seed), f}
+	}},
 	{"cvc5", func(f string, ms, seed int) []string {
 		return []string{"cvc5", fmt.Sprintf("--tlimit=%d", ms), "--full-saturate-quant", fmt.Sprintf("--seed=%d", seed), f}
 	}},
